@@ -1,6 +1,7 @@
 """C20 A supplementary graph resolves to the mapped option for each source architecture - structural clauses."""
 import ast
 
+from ..rules.match import FnText
 from ..model import AnalysisError, norm
 from ..cfg import build_cfg
 from ..flow import Slice
@@ -71,7 +72,7 @@ def init_shape(ctx, rule='A5'):
         ctx.ob(rule, fkey(fn, rule, f'{nm}-rejected-before-init'), ok, fn.where,
                f'the base initialisation runs only after the {nm}-mapping test (which raises)',
                short(ts[0].ast) if ts else 'test missing')
-    txt = ' '.join(norm(s) for s in fn.body)
+    txt = FnText(ctx, fn)
     ok = 'unmapped_choice_nodes = set(self.choice_nodes) - mapped_choice_nodes' in txt
     ctx.ob(rule, fkey(fn, rule, 'unmapped-is-set-difference'), ok, fn.where,
            'the unmapped choices are all choice nodes of the supplementary graph minus the mapped ones', '')
@@ -136,7 +137,7 @@ def option_provenance(ctx, rule='A6'):
         ctx.ob(rule, fkey(fn, rule, 'exactly-one-selected'), ok, fn.where,
                'the mapping entry is used only when exactly one mapped source option is wired to the originating '
                'node (otherwise an error is raised)', short(t[0].ast) if t else 'missing')
-    txt = ' '.join(norm(s) for s in fn.body)
+    txt = FnText(ctx, fn)
     ok = 'originating_out_nodes & set(mapping.keys())' in txt
     ctx.ob(rule, fkey(fn, rule, 'selected-is-mapped-out-neighbour'), ok, fn.where,
            'the selected source option is an out-neighbour of the originating node that is a key of the mapping', '')
@@ -175,7 +176,7 @@ def option_provenance(ctx, rule='A6'):
            'the None key is skipped during the scan (it is the fallback, not a source node)', '')
     # initialisation completeness checks
     fi = ctx.fn(f'{SUP}:SupSelChoiceOptionMapping.initialize')
-    ti = ' '.join(norm(s) for s in fi.body)
+    ti = FnText(ctx, fi)
     for nm, frag, desc in (
             ('all-source-options-mapped', 'unmapped_src_opt_nodes = set(src_option_nodes) - mapping_nodes',
              'every option of the source choice must be a key of the mapping'),
@@ -186,7 +187,7 @@ def option_provenance(ctx, rule='A6'):
         ctx.ob(rule, fkey(fi, rule, nm), frag in ti and ti.count('raise SupInitializationError') >= 4, fi.where,
                desc + ' (raises SupInitializationError otherwise)', '')
     fx = ctx.fn(f'{SUP}:SupExistenceMapping.initialize')
-    tx = ' '.join(norm(s) for s in fx.body)
+    tx = FnText(ctx, fx)
     ok = 'if None not in self._mapping' in tx and tx.count('raise SupInitializationError') >= 4
     ctx.ob(rule, fkey(fx, rule, 'existence-none-required'), ok, fx.where,
            'an existence mapping without the None entry is rejected', '')
